@@ -141,11 +141,14 @@ def step(ctx, g, w, b, docs, fails, flags):
             # the identifier already in use, in any spelling that denotes it in this document
             reps = [q]
             for rep in (str(q), q.uri, Identifier(q.uri)):
+                # add_bundle resolves its identifier argument in the scope of the bundle being added: a spelling is only an
+                # unambiguous duplicate when document and added bundle both read it as the identifier in use
                 try:
                     back = dobj.valid_qualified_name(rep)       # strings and Identifiers are resolved without side effects
+                    back2 = oobj.valid_qualified_name(rep)
                 except Exception:  # noqa
-                    back = None
-                if back is not None and back.uri == q.uri:
+                    back = back2 = None
+                if back is not None and back.uri == q.uri and back2 is not None and back2.uri == q.uri:
                     reps.append(rep)
             ident = r.choice(reps)
             expect_refusal = "duplicate identifier"
